@@ -817,7 +817,57 @@ def _ord_pred(which):
     return f
 
 
+def _opt_copied(ev, args, depth):
+    v = deref(args[0])
+    if isinstance(v, Adt) and v.variant == "Some":
+        return Adt("std::option::Option", "Some", tuple(deref(x) for x in v.fields))
+    if isinstance(v, Adt) and v.variant == "None":
+        return v
+    raise Unknown("copied on %r" % (v,))
+
+
+def _ok_or_else(ev, args, depth):
+    v = deref(args[0])
+    if isinstance(v, Adt) and v.variant == "Some":
+        return Adt("std::result::Result", "Ok", v.fields)
+    if isinstance(v, Adt) and v.variant == "None":
+        try:
+            e = ev.call_closure(args[1], [], depth + 1)
+        except (Unknown, Panic):
+            e = Adt("opaque", "E")
+        return Adt("std::result::Result", "Err", (e,))
+    raise Unknown("ok_or_else on %r" % (v,))
+
+
+def _res_map(ev, args, depth):
+    v = deref(args[0])
+    if isinstance(v, Adt) and v.variant == "Err":
+        return v
+    if isinstance(v, Adt) and v.variant == "Ok":
+        try:
+            r = ev.call_closure(args[1], list(v.fields), depth + 1)
+        except (Unknown, Panic):
+            r = Adt("opaque", "V")
+        return Adt("std::result::Result", "Ok", (r,))
+    raise Unknown("Result::map on %r" % (v,))
+
+
+def _res_map_err(ev, args, depth):
+    v = deref(args[0])
+    if isinstance(v, Adt) and v.variant == "Ok":
+        return v
+    if isinstance(v, Adt) and v.variant == "Err":
+        return Adt("std::result::Result", "Err", (Adt("opaque", "E"),))
+    raise Unknown("Result::map_err on %r" % (v,))
+
+
 STD_MODELS = {
+    "std::option::Option::<&T>::copied": _opt_copied,
+    "std::option::Option::<&T>::cloned": _opt_copied,
+    "std::option::Option::<&mut T>::copied": _opt_copied,
+    "std::option::Option::<T>::ok_or_else": _ok_or_else,
+    "std::result::Result::<T, E>::map": _res_map,
+    "std::result::Result::<T, E>::map_err": _res_map_err,
     "std::cmp::Ord::cmp": _int_cmp,
     "core::cmp::impls::<impl std::cmp::Ord for usize>::cmp": _int_cmp,
     "core::cmp::impls::<impl std::cmp::Ord for u32>::cmp": _int_cmp,
